@@ -107,7 +107,8 @@ Record dev := mkDev {
   d_buf : list (Z * item); d_level : Z; d_capacity : inf; d_min_delay : Z;
   (* Source *)
   d_budget : inf; d_produced : Z; d_cost_produced : Z; d_gen_value : Z; d_gen_quality : Z; d_gen_count : Z;
-  d_gen_batch : Z;                (* 0: single parts; n > 0: a batch generator producing batches of n parts *)
+  d_gen_batch : Z;                (* 0: single parts; n > 0: a batch generator producing batches of n parts; n < 0: empty batches *)
+  d_gen_pattern : list Z;         (* non-empty: the sizes (as for d_gen_batch) of the successive items, cyclically *)
   (* Sink *)
   d_collect : bool; d_collected : list item; d_received : Z; d_value_received : Z;
   (* PartBatcher *)
@@ -124,14 +125,14 @@ Record dev := mkDev {
   <d_kind; d_up; d_down; d_block; d_value; d_vhist; d_wait_since; d_cycle; d_offset; d_part; d_out; d_waiting_ds; d_on_receive;
    d_shut; d_req; d_reserved; d_waiting_res; d_on_finish; d_on_shutdown; d_on_restore; d_uptime; d_last_restore; d_inuse; d_last_use; d_wo_dur; d_wo_cap; d_wo_cost;
    d_buf; d_level; d_capacity; d_min_delay;
-   d_budget; d_produced; d_cost_produced; d_gen_value; d_gen_quality; d_gen_count; d_gen_batch;
+   d_budget; d_produced; d_cost_produced; d_gen_value; d_gen_quality; d_gen_count; d_gen_batch; d_gen_pattern;
    d_collect; d_collected; d_received; d_value_received; d_batch_size; d_inprog; d_decider; d_group; d_made; d_delivered; d_lost>.
 
 Definition blank_dev (k : kind) : dev :=
   mkDev k [] [] false 0 [] None 0 0 None None false []
         false None None false [] [] [] 0 (Some 0) 0 None 0 0 0
         [] 0 None 0
-        None 0 0 0 8 0 0
+        None 0 0 0 8 0 0 []
         false [] 0 0 None None DAlways 0 [] [] [].
 
 Record group := mkGroup { g_in : Z; g_out : Z; g_paths : list Z }.
